@@ -556,3 +556,17 @@ def returns_at_most(F, P, g):
         if ok:
             out.append(k)
     return out
+
+
+MAP_REMOVALS = ('HashMap::remove', 'HashMap::remove_entry', 'hash_map::OccupiedEntry::remove', 'hash_map::OccupiedEntry::remove_entry')
+
+
+def removal_key_terms(P, g, bb, t):
+    """key term(s) of a map removal: the key argument of HashMap::remove, or the key given to the HashMap::entry lookup that produced the occupied entry being removed"""
+    if callee_is(t, 'HashMap::remove', 'HashMap::remove_entry'):
+        return [P.operand(g, t['args'][1], at=bb)]
+    out = []
+    for r, p in P.root(P.operand(g, t['args'][0], at=bb)):
+        if P.is_call(r, 'HashMap::entry'):
+            out.append(P.args_of(r)[1])
+    return out
